@@ -1,6 +1,7 @@
 package main
 
 import (
+	btpb "cloud.google.com/go/bigtable/apiv2/bigtablepb"
 	"fmt"
 	"sort"
 	"strings"
@@ -19,7 +20,7 @@ import (
 // order. Checked with porcupine per table name against a small registry model.
 
 type c14cIn struct {
-	Kind string // create delete get list addf2 dropf2 mutate read dropprefix dropall
+	Kind string // create delete get list addf2 dropf2 mutate rmw2 read dropprefix dropall
 	Key  string
 	Fam  string
 	Val  string
@@ -154,6 +155,14 @@ func c14cStep(st c14cState, in c14cIn, out c14cOut) (bool, c14cState) {
 		}
 		n.rows[in.Key][in.Fam] = in.Val
 		return true, n
+	case "rmw2":
+		// one ReadModifyWriteRow with a rule in f1 and a rule in f2 (column "a", which the reads
+		// of this workload do not render): with f2 absent it fails as a whole; otherwise it
+		// succeeds and its response carries the new cell of each of the two families
+		if !st.f2 {
+			return isErr, st
+		}
+		return !isErr && out.Row == "f1,f2", st
 	case "read":
 		return !isErr && out.Row == st.rowString(in.Key), st
 	case "dropprefix":
@@ -263,6 +272,20 @@ func c14Concurrent(r *Run, cfg *Stream) {
 			out.Code = code(err)
 		case "mutate":
 			out.Code = code(w.MutateRow(tbl, in.Key, mutList{setCell(in.Fam, "q", 1000, in.Val)}))
+		case "rmw2":
+			app := func(f string) *btpb.ReadModifyWriteRule {
+				return &btpb.ReadModifyWriteRule{FamilyName: f, ColumnQualifier: []byte("a"), Rule: &btpb.ReadModifyWriteRule_AppendValue{AppendValue: []byte("x")}}
+			}
+			row, err := w.RMW(tbl, in.Key, []*btpb.ReadModifyWriteRule{app("f1"), app("f2")})
+			out.Code = code(err)
+			if err == nil && row != nil {
+				var fs []string
+				for _, c := range row.Cells {
+					fs = append(fs, c.Fam)
+				}
+				sort.Strings(fs)
+				out.Row = strings.Join(fs, ",")
+			}
 		case "read":
 			rr := w.ReadRow(tbl, in.Key)
 			out.Code = code(rr.Err)
@@ -272,6 +295,9 @@ func c14Concurrent(r *Run, cfg *Stream) {
 			if rr.Err == nil && len(rr.Rows) == 1 {
 				var parts []string
 				for _, c := range rr.Rows[0].Cells {
+					if c.Qual == "a" {
+						continue // written by the two-family read-modify-write, not modelled cell by cell
+					}
 					parts = append(parts, c.Fam+"="+c.Val)
 				}
 				sort.Strings(parts)
@@ -294,7 +320,10 @@ func c14Concurrent(r *Run, cfg *Stream) {
 	keys := []string{"a", "ab", "b"}
 	gen := func(d *draws) c14cIn {
 		seq++
-		switch d.w(4, 3, 2, 1, 2, 2, 5, 4, 1, 1) {
+		switch d.w(4, 3, 2, 1, 2, 2, 5, 4, 1, 1, 2) {
+		case 10:
+			k := keys[d.n(3)]
+			return c14cIn{Kind: "rmw2", Key: k, Desc: fmt.Sprintf("ReadModifyWriteRow %q {append f1:a, append f2:a}", k)}
 		case 0:
 			return c14cIn{Kind: "create", Desc: "CreateTable t"}
 		case 1:
